@@ -323,7 +323,7 @@ impl ConnectionPool {
                 let old_pool_ref = get_pool(pool_name, &user.username);
                 let identifier = PoolIdentifier::new(pool_name, &user.username);
 
-                if let Some(pool) = old_pool_ref {
+                if let Some(ref pool) = old_pool_ref {
                     // If the pool hasn't changed, get existing reference and insert it into the new_pools.
                     // We replace all pools at the end, but if the reference is kept, the pool won't get re-created (bb8).
                     if pool.config_hash == new_pool_hash_value {
@@ -591,8 +591,16 @@ impl ConnectionPool {
                         },
                     }),
                     validated: Arc::new(AtomicBool::new(false)),
-                    paused: Arc::new(AtomicBool::new(false)),
-                    paused_waiter: Arc::new(Notify::new()),
+                    // A pool that is rebuilt stays paused if it was, on the gate the clients
+                    // it holds are waiting at: RESUME has to reach them.
+                    paused: match old_pool_ref {
+                        Some(ref old_pool) => old_pool.paused.clone(),
+                        None => Arc::new(AtomicBool::new(false)),
+                    },
+                    paused_waiter: match old_pool_ref {
+                        Some(ref old_pool) => old_pool.paused_waiter.clone(),
+                        None => Arc::new(Notify::new()),
+                    },
                     prepared_statement_cache: match pool_config.prepared_statements_cache_size {
                         0 => None,
                         _ => Some(Arc::new(Mutex::new(PreparedStatementCache::new(
